@@ -194,8 +194,11 @@ func C12FloodTerminate() {
 	// 1. a call that keeps the sub-object busy
 	v.hostile.inject(zzFrame(net.Call, v.sid, id, 1000, 100, nil))
 	sym.Quiesce()
-	// 2. terminate + enough calls to fill the sub-object's mailbox (10 slots) and block the connection on it
+	// 2. terminate (possibly sent twice in a row) + enough calls to fill the sub-object's mailbox (10 slots) and block the connection on it
 	v.hostile.inject(zzFrame(net.Call, v.sid, id, 3, 101, zzLE32(id)))
+	if sym.Bool("terminate-sent-twice") {
+		v.hostile.inject(zzFrame(net.Call, v.sid, id, 3, 102, zzLE32(id)))
+	}
 	for i := 0; i < 10; i++ {
 		v.hostile.inject(zzFrame(net.Call, v.sid, id, 1000, uint32(110+i), nil))
 	}
